@@ -82,7 +82,6 @@ let verdict case impl =
       fun n -> int_of_nat (group_with rackf enabled connected pol rq an ln rl ra n) in
     let pm p = plan_matches dcf rackf g kss enabled connected pol rq p in
     let pk o = pick_matches dcf rackf g kss enabled connected pol rq o in
-    let dup = not (tokens_distinct g) in
     (match impl with
      | [pick; fb; p1; p2; p3] ->
        let pick = if pick = "_" then None else Some (parse_tgt pick) in
@@ -114,15 +113,7 @@ let verdict case impl =
              (String.concat "," (List.map (fun (n, _) -> hex_of_n n ^ ":" ^ string_of_int (grp n)) (match plans with p :: _ -> p | [] -> [])))
              (string_of_nlist (lwt_sequence dcf rackf g kss enabled connected pol rq))
              (int_of_nat (min_group dcf rackf g kss enabled connected pol rq)) in
-         (* the known class: a ring that repeats a token, an LWT request, and plans whose node SET is
-            right (duplicate-free, enabled, permitted, complete) — only the replica order is off *)
-         let perm n = permitted dcf g pol rq n in
-         let expected = List.filter (fun n -> enabled n && perm n) (all_nodes g) in
-         let set_ok p = let ns = nodes_of p in
-           nodupb ns && List.for_all (fun n -> enabled n && perm n) ns && List.for_all (fun n -> mem n ns) expected in
-         let known = dup && rq.rq_lwt && List.for_all set_ok (fb :: plans) in
          if plans_ok && fb_ok && pick_ok && heads_ok then "diff annotations " ^ detail
-         else if known then "viol class=dup-token-start " ^ detail
          else "viol " ^ detail
        end
      | ["panic"] -> "viol panic"
